@@ -341,3 +341,237 @@ Proof.
     cbn [option_map] in Hpp. injection Hpp as Hpe _. rewrite Hpe. exact Hm.
   - destruct (bag_get (fold_left inherit_var_options (topo_order b2) b3) p); [discriminate|]. exact Hm.
 Qed.
+
+(* ---------- the same pass, generically: any update of a context from its parent's final state ---------- *)
+Section GPass.
+  Variable upd : context -> context -> option context.       (* self, final parent -> new self (None: unchanged) *)
+  Hypothesis upd_parent : forall c pc c', upd c pc = Some c' -> c_parent_index c' = c_parent_index c.
+
+  Definition gstep (b : bag) (nm : nat * nat) : bag :=
+    match snd nm with
+    | O => b
+    | _ => match bag_get b (fst nm) with
+           | Some c => match c_parent_index c with
+                       | Some p => match bag_get b p with
+                                   | Some pc => match upd c pc with Some c' => set_ctx b (fst nm) c' | None => b end
+                                   | None => b end
+                       | None => b end
+           | None => b end
+    end.
+
+  Variable b2 : bag.
+  Hypothesis Hacyc : acyclic (parents_of b2) = true.
+
+  Definition gspec (b : bag) (j : nat) : Prop :=
+    forall c2, bag_get b2 j = Some c2 ->
+      exists c, bag_get b j = Some c /\ c_parent_index c = c_parent_index c2 /\
+        match c_parent_index c2 with
+        | None => c = c2
+        | Some p => match bag_get b p with
+                    | Some pc => c = match upd c2 pc with Some c' => c' | None => c2 end
+                    | None => c = c2 end
+        end.
+
+  Definition GInv (done : list (nat * nat)) (b : bag) : Prop :=
+    length b = length b2 /\
+    (forall j, ~ In j (map fst done) -> bag_get b j = bag_get b2 j) /\
+    (forall j, In j (map fst done) -> gspec b j /\
+               forall c2 p, bag_get b2 j = Some c2 -> c_parent_index c2 = Some p -> p < length b2 -> In p (map fst done)).
+
+  Lemma gpass_step done x todo b :
+    topo_order b2 = done ++ x :: todo -> GInv done b -> GInv (done ++ [x]) (gstep b x).
+  Proof.
+    intros Ho (Hlen & Hun & Hdone).
+    assert (Hx : In x (topo_order b2)) by (rewrite Ho; apply in_or_app; right; left; reflexivity).
+    apply topo_order_In in Hx. destruct Hx as [Hi Hk]. destruct x as [i k]. cbn [fst snd] in *.
+    pose proof (topo_order_nodup b2) as ND. rewrite Ho, map_app in ND. cbn [map fst] in ND.
+    assert (Hnd : ~ In i (map fst done)).
+    { intros Hin. apply NoDup_remove_2 in ND. apply ND. apply in_or_app. left. exact Hin. }
+    assert (Hgi : bag_get b i = bag_get b2 i) by (apply Hun, Hnd).
+    destruct (bag_get b2 i) as [c2|] eqn:Eg2;
+      [|exfalso; unfold bag_get in Eg2; apply nth_error_None in Eg2; lia].
+    assert (Hpd : forall p, c_parent_index c2 = Some p -> p < length b2 -> In p (map fst done)).
+    { intros p Hp Hpl. pose proof (depth_parent b2 i c2 p Hacyc Eg2 Hp) as Hd.
+      assert (Hpo : In (p, depth b2 p) (topo_order b2)) by (apply topo_order_In; cbn; split; [exact Hpl|reflexivity]).
+      rewrite Ho in Hpo. apply in_app_or in Hpo. destruct Hpo as [Hpo|Hpo]; [apply in_map_iff; exists (p, depth b2 p); split; [reflexivity|exact Hpo]|].
+      exfalso. pose proof (topo_order_sorted b2) as Hs. rewrite Ho in Hs.
+      apply StronglySorted_app_r in Hs. inversion Hs as [|? ? _ Hall]; subst.
+      destruct Hpo as [E|Hpo]; [injection E as E1 E2; lia|].
+      rewrite Forall_forall in Hall. specialize (Hall _ Hpo). unfold le_cnt in Hall. cbn in Hall. lia. }
+    assert (Hcases : (gstep b (i, k) = b /\ (match c_parent_index c2 with
+                                             | None => True
+                                             | Some p => match bag_get b p with
+                                                         | Some pc => upd c2 pc = None
+                                                         | None => True end end)) \/
+                     (exists p pc c', c_parent_index c2 = Some p /\ bag_get b p = Some pc /\ upd c2 pc = Some c' /\
+                        gstep b (i, k) = set_ctx b i c')).
+    { unfold gstep. cbn [fst snd]. rewrite Hgi.
+      destruct k as [|k'].
+      - left. split; [reflexivity|]. destruct (c_parent_index c2) as [p|] eqn:Ep; [|exact I].
+        pose proof (depth_parent b2 i c2 p Hacyc Eg2 Ep). lia.
+      - destruct (c_parent_index c2) as [p|] eqn:Ep; [|left; split; [reflexivity|exact I]].
+        destruct (bag_get b p) as [pc|] eqn:Egp; [|left; split; [reflexivity|exact I]].
+        destruct (upd c2 pc) as [c'|] eqn:Eu; [|left; split; [reflexivity|reflexivity]].
+        right. exists p, pc, c'. split; [reflexivity|]. split; [exact Egp|]. split; [exact Eu|]. reflexivity. }
+    assert (Hib : i < length b) by lia.
+    destruct Hcases as [[Hsame Hnone]|(p & pc & c' & Ep & Egp & Eu & Hset)].
+    - rewrite Hsame. split; [exact Hlen|]. split.
+      + intros j Hj. apply Hun. intros Hin. apply Hj. rewrite map_app. apply in_or_app. left. exact Hin.
+      + intros j Hj. rewrite map_app in Hj. cbn [map fst] in Hj. apply in_app_or in Hj. destruct Hj as [Hj|[<-|[]]].
+        * destruct (Hdone j Hj) as [Hs Hp]. split; [exact Hs|]. intros c2' p' E1 E2 E3. rewrite map_app. apply in_or_app. left. apply (Hp c2' p' E1 E2 E3).
+        * split.
+          -- intros c2' E. rewrite Eg2 in E. injection E as <-. exists c2. split; [exact Hgi|]. split; [reflexivity|].
+             destruct (c_parent_index c2) as [p|]; [|reflexivity]. destruct (bag_get b p) as [pc|]; [|reflexivity].
+             rewrite Hnone. reflexivity.
+          -- intros c2' p' E1 E2 E3. rewrite Eg2 in E1. injection E1 as <-. rewrite map_app. apply in_or_app. left. apply (Hpd p' E2 E3).
+    - rewrite Hset.
+      assert (Hpl : p < length b2) by (rewrite <- Hlen; unfold bag_get in Egp; apply nth_error_Some; rewrite Egp; discriminate).
+      assert (Hpin : In p (map fst done)) by (apply Hpd; assumption).
+      assert (Hpi : p <> i) by (intros ->; contradiction).
+      split; [rewrite set_ctx_length by exact Hib; exact Hlen|]. split.
+      + intros j Hj. rewrite set_ctx_other; [apply Hun; intros Hin; apply Hj; rewrite map_app; apply in_or_app; left; exact Hin|exact Hib|].
+        intros ->. apply Hj. rewrite map_app. apply in_or_app. right. left. reflexivity.
+      + intros j Hj. rewrite map_app in Hj. cbn [map fst] in Hj. apply in_app_or in Hj. destruct Hj as [Hj|[<-|[]]].
+        * assert (Hji : j <> i) by (intros ->; contradiction).
+          destruct (Hdone j Hj) as [Hs Hp]. split.
+          -- intros c2' E. destruct (Hs c2' E) as (c & Hc & Hw & Hm). exists c.
+             split; [rewrite set_ctx_other by assumption; exact Hc|]. split; [exact Hw|].
+             destruct (c_parent_index c2') as [p'|] eqn:Ep'; [|exact Hm].
+             destruct (Nat.eq_dec p' i) as [->|Hne].
+             ++ exfalso. apply Hnd. apply (Hp c2' i E Ep'). lia.
+             ++ rewrite set_ctx_other by assumption. exact Hm.
+          -- intros c2' p' E1 E2 E3. rewrite map_app. apply in_or_app. left. apply (Hp c2' p' E1 E2 E3).
+        * split.
+          -- intros c2' E. rewrite Eg2 in E. injection E as <-. exists c'. split; [apply set_ctx_same; exact Hib|].
+             split; [exact (upd_parent _ _ _ Eu)|]. rewrite Ep. rewrite set_ctx_other by assumption. rewrite Egp, Eu. reflexivity.
+          -- intros c2' p' E1 E2 E3. rewrite Eg2 in E1. injection E1 as <-. rewrite map_app. apply in_or_app. left. apply (Hpd p' E2 E3).
+  Qed.
+
+  Lemma gpass_all : forall todo done b, topo_order b2 = done ++ todo -> GInv done b ->
+    GInv (done ++ todo) (fold_left gstep todo b).
+  Proof.
+    induction todo as [|x t IH]; intros done b Ho HI; cbn [fold_left]; [rewrite app_nil_r; exact HI|].
+    replace (done ++ x :: t) with ((done ++ [x]) ++ t) by (rewrite <- app_assoc; reflexivity).
+    apply IH; [rewrite <- app_assoc; exact Ho|]. eapply gpass_step; eassumption.
+  Qed.
+
+  Theorem gpass_spec : forall j, j < length b2 -> gspec (fold_left gstep (topo_order b2) b2) j.
+  Proof.
+    intros j Hj.
+    assert (H0 : GInv [] b2) by (split; [reflexivity|]; split; [reflexivity|intros x []]).
+    pose proof (gpass_all (topo_order b2) [] b2 eq_refl H0) as (_ & _ & Hd). cbn [app] in Hd.
+    apply Hd. apply in_map_iff. exists (j, depth b2 j). split; [reflexivity|]. apply topo_order_In. cbn. split; [exact Hj|reflexivity].
+  Qed.
+End GPass.
+
+(* ---------- var_options are inherited by contexts that declare none (C14) ---------- *)
+Lemma count_parents_ext b b' : parents_of b = parents_of b' -> forall f i, count_parents f b i = count_parents f b' i.
+Proof.
+  intros Hp. induction f as [|f IH]; intros i; [reflexivity|]. rewrite !count_S.
+  pose proof (nth_parents b i) as H1. pose proof (nth_parents b' i) as H2. rewrite Hp in H1. rewrite H1 in H2.
+  destruct (bag_get b i) as [c|], (bag_get b' i) as [c'|]; cbn in H2; try discriminate; [|reflexivity].
+  injection H2 as H2. rewrite H2. destruct (c_parent_index c'); [rewrite IH; reflexivity|reflexivity].
+Qed.
+Lemma topo_order_ext b b' : parents_of b = parents_of b' -> topo_order b = topo_order b'.
+Proof.
+  intros Hp. unfold topo_order.
+  assert (Hl : length b = length b') by (rewrite <- (map_length c_parent_index b), <- (map_length c_parent_index b'); unfold parents_of in Hp; rewrite Hp; reflexivity).
+  rewrite Hl. f_equal. apply map_ext. intros i. rewrite (count_parents_ext b b' Hp). reflexivity.
+Qed.
+
+Lemma inherit_env_parents b nm : parents_of (inherit_env b nm) = parents_of b.
+Proof.
+  unfold inherit_env. destruct (snd nm); [reflexivity|].
+  destruct (bag_get b (fst nm)) as [c|] eqn:Eg; [|reflexivity].
+  destruct (c_parent_index c) as [p|] eqn:Ep; [|reflexivity]. destruct (bag_get b p) as [pc|]; [|reflexivity].
+  destruct (c_env pc); [|reflexivity].
+  unfold parents_of, set_ctx. rewrite map_app. cbn [map with_env c_parent_index].
+  rewrite <- (firstn_skipn (fst nm) b) at 3. rewrite map_app. f_equal.
+  unfold bag_get in Eg.
+  assert (Hs : skipn (fst nm) b = c :: skipn (S (fst nm)) b).
+  { clear -Eg. revert b Eg. induction (fst nm) as [|n IH]; intros b Eg; destruct b as [|x t]; cbn in *; try discriminate.
+    - injection Eg as ->. reflexivity.
+    - apply IH, Eg. }
+  rewrite Hs. reflexivity.
+Qed.
+Lemma inherit_env_fold_parents l : forall b, parents_of (fold_left inherit_env l b) = parents_of b.
+Proof. induction l as [|x t IH]; intros b; cbn [fold_left]; [reflexivity|]. rewrite IH. apply inherit_env_parents. Qed.
+
+Definition upd_vo (c pc : context) : option context :=
+  match c_var_options c with Some _ => None | None => Some (with_var_options c (c_var_options pc)) end.
+
+Lemma ivo_is_gstep b nm : inherit_var_options b nm = gstep upd_vo b nm.
+Proof.
+  unfold inherit_var_options, gstep, upd_vo. destruct (snd nm); [reflexivity|].
+  destruct (bag_get b (fst nm)) as [c|]; [|reflexivity].
+  destruct (c_var_options c); [|reflexivity].
+  destruct (c_parent_index c) as [p|]; [|reflexivity]. destruct (bag_get b p); reflexivity.
+Qed.
+
+Lemma env_pass_var_options l : forall b j, option_map c_var_options (bag_get (fold_left inherit_env l b) j) = option_map c_var_options (bag_get b j).
+Proof.
+  induction l as [|x t IH]; intros b j; cbn [fold_left]; [reflexivity|]. rewrite IH.
+  unfold inherit_env. destruct (snd x); [reflexivity|].
+  destruct (bag_get b (fst x)) as [c|] eqn:Eg; [|reflexivity].
+  destruct (c_parent_index c) as [p|]; [|reflexivity]. destruct (bag_get b p) as [pc|]; [|reflexivity].
+  destruct (c_env pc); [|reflexivity].
+  assert (Hi : fst x < length b) by (unfold bag_get in Eg; apply nth_error_Some; rewrite Eg; discriminate).
+  rewrite set_ctx_get by exact Hi. destruct (Nat.eqb j (fst x)) eqn:E; [|reflexivity].
+  apply Nat.eqb_eq in E. subst j. rewrite Eg. reflexivity.
+Qed.
+
+Theorem finalize_var_options_inherited b0 bf : finalize b0 = Ok bf ->
+  let b1 := if mem_str (S_ "default") (bag_names b0) then b0 else b0 ++ [context_default] in
+  forall j c, bag_get bf j = Some c ->
+    exists c1, bag_get b1 j = Some c1 /\
+      c_var_options c =
+      match c_var_options c1 with
+      | Some own => Some own
+      | None => match c_parent_index c with
+                | Some p => match bag_get bf p with Some pc => c_var_options pc | None => None end
+                | None => None end
+      end.
+Proof.
+  unfold finalize. intros HF. cbv zeta.
+  set (b1 := if mem_str (S_ "default") (bag_names b0) then b0 else b0 ++ [context_default]) in *.
+  destruct (resolve_parents (bag_names b1) (map c_parent_name b1)) as [ps|] eqn:Er; [|discriminate].
+  destruct (acyclic ps) eqn:Ea; unfold negb in HF; [|discriminate].
+  injection HF as <-.
+  assert (Hl : length ps = length b1) by (rewrite (resolve_parents_length _ _ _ Er); apply map_length).
+  set (b2 := map (fun cp => with_parent_index (fst cp) (snd cp)) (combine b1 ps)).
+  assert (Hp2 : parents_of b2 = ps) by (apply parents_of_combine, Hl).
+  set (b3 := fold_left inherit_env (topo_order b2) b2).
+  assert (Hp3 : parents_of b3 = parents_of b2) by (apply inherit_env_fold_parents).
+  assert (Hac3 : acyclic (parents_of b3) = true) by (rewrite Hp3, Hp2; exact Ea).
+  assert (Hord : topo_order b2 = topo_order b3) by (symmetry; apply topo_order_ext, Hp3).
+  rewrite Hord.
+  assert (Hfold : forall l b, fold_left inherit_var_options l b = fold_left (gstep upd_vo) l b).
+  { induction l as [|x t IH]; intros b; cbn [fold_left]; [reflexivity|]. rewrite ivo_is_gstep. apply IH. }
+  rewrite Hfold. intros j c Hg.
+  assert (Hupd : forall c0 pc c', upd_vo c0 pc = Some c' -> c_parent_index c' = c_parent_index c0).
+  { intros c0 pc c' E. unfold upd_vo in E. destruct (c_var_options c0); [discriminate|]. injection E as <-. reflexivity. }
+  set (bf := fold_left (gstep upd_vo) (topo_order b3) b3) in *.
+  assert (Hjl : j < length b3).
+  { assert (Hlen : length bf = length b3).
+    { unfold bf. assert (G : forall l b, length (fold_left (gstep upd_vo) l b) = length b).
+      { induction l as [|x t IH]; intros b; cbn [fold_left]; [reflexivity|]. rewrite IH. unfold gstep.
+        destruct (snd x); [reflexivity|]. destruct (bag_get b (fst x)) as [cx|] eqn:Ex; [|reflexivity].
+        destruct (c_parent_index cx); [|reflexivity]. destruct (bag_get b n0); [|reflexivity]. destruct (upd_vo cx c0); [|reflexivity].
+        apply set_ctx_length. unfold bag_get in Ex. apply nth_error_Some. rewrite Ex. discriminate. }
+      apply G. }
+    rewrite <- Hlen. unfold bag_get in Hg. apply nth_error_Some. rewrite Hg. discriminate. }
+  destruct (bag_get b3 j) as [c3|] eqn:E3; [|exfalso; unfold bag_get in E3; apply nth_error_None in E3; lia].
+  destruct (gpass_spec upd_vo Hupd b3 Hac3 j Hjl c3 E3) as (c' & Ec' & Hpar & Hm). fold bf in Ec', Hm.
+  rewrite Hg in Ec'. injection Ec' as <-.
+  (* c3's var_options and parent are those of b1's context *)
+  pose proof (env_pass_var_options (topo_order b2) b2 j) as Hvo. fold b3 in Hvo. rewrite E3 in Hvo. cbn [option_map] in Hvo.
+  unfold b2 in Hvo. rewrite (combine_get b1 ps Hl) in Hvo.
+  destruct (bag_get b1 j) as [c1|] eqn:E1; [|discriminate]. destruct (nth_error ps j) as [pj|]; [|discriminate].
+  cbn [option_map with_parent_index c_var_options] in Hvo. injection Hvo as Hvo.
+  exists c1. split; [reflexivity|]. rewrite Hpar. rewrite <- Hvo.
+  destruct (c_parent_index c3) as [p|].
+  - destruct (bag_get bf p) as [pc|].
+    + rewrite Hm. unfold upd_vo. destruct (c_var_options c3) as [o|] eqn:Eo; [exact Eo|]. reflexivity.
+    + rewrite Hm. destruct (c_var_options c3); reflexivity.
+  - rewrite Hm. destruct (c_var_options c3); reflexivity.
+Qed.
